@@ -32,6 +32,13 @@ struct Synchro g_syn;
 struct EngineImpl g_engine;
 struct ContextFactory g_cf;
 struct Context g_ctx; /* the context create_context returns to the worker thread */
+/* the three barrier objects; their reference member `parmap` is an embedded struct (the shared counters live there) */
+struct BusyWaitSynchro g_bw;
+struct FutexSynchro g_fx;
+struct PosixSynchro g_px;
+#define BWP (g_bw.__b_Synchro.parmap)
+#define FXP (g_fx.__b_Synchro.parmap)
+#define PXP (g_px.__b_Synchro.parmap)
 struct vf_seq_ActorImplP g_data; /* the vector handed to apply */
 struct ActorImpl* g_buf[CAP];    /* its storage */
 struct ActorImpl g_actor[CAP];   /* the elements: data[k] == &g_actor[k] */
@@ -66,6 +73,16 @@ unsigned int g_ww_n, g_ws_n; /* calls of worker_wait / worker_signal (modulo 2^3
 _Bool g_round_ok;            /* the k-th worker_wait asked for round k */
 unsigned int g_ctx_created, g_ctx_set;
 
+/* ---- ghost state of the barrier pieces ---- */
+unsigned int g_add_n, g_add_ret; /* fetch_add on a barrier counter by this thread: number of calls, last result */
+unsigned int g_wake_n, g_wake_cnt, g_wake_round, g_wake_tc; /* futex_wake: calls, count argument, counters at the call */
+unsigned int* g_wake_addr;
+_Bool g_fw_any; /* futex_wait was called; on which address */
+unsigned int* g_fw_addr;
+unsigned int g_nall_n, g_none_n, g_notify_round, g_notify_tc; /* notify_all / notify_one: calls, counters at the call */
+struct condition_variable* g_notify_cv;
+struct condition_variable* g_cvw_cv; /* condition variable of the last wait */
+
 #define ALLK(P) (P(0) && P(1) && P(2) && P(3) && P(4) && P(5))
 #if CAP != 6
 #error "ALLK is written for CAP == 6"
@@ -92,19 +109,28 @@ void fun_log(void* env, struct ActorImpl* a);
 #define FA_OTHER_K(k)                                                                                                  \
   (g_other[k] == __CPROVER_old(g_other[k]) + (__CPROVER_old(*p) <= (k) && (k) < __CPROVER_return_value ? 1 : 0))
 #define FA_SOLO_K(k) (g_other[k] == __CPROVER_old(g_other[k]))
+/* the other atomic counters: work_round (written by the master only) and thread_counter (incremented by every worker) of
+ * the barrier objects g_bw / g_fx (see "barrier pieces" below): plain +1, recorded in g_add_n / g_add_ret */
+#define IS_TICKET(p) ((p) == &g_pm.common_index)
+#define IS_ROUND(p) ((p) == &BWP.work_round || (p) == &FXP.work_round)
+#define IS_TC(p) ((p) == &BWP.thread_counter || (p) == &FXP.thread_counter)
 #ifndef H_lemma_sequential_bodies
 unsigned int vf_fetch_add_unsigned_int(unsigned int* p, unsigned int v)
     /* clang-format off */
-__CPROVER_requires(p == &g_pm.common_index && v == 1)
-__CPROVER_requires(DISP_WF(*p)) /*@ dispenser_consistent_with_counter */
-__CPROVER_requires(g_nt <= UINT_MAX)
-__CPROVER_assigns(*p, g_nt, g_last, __CPROVER_object_whole(g_mine), __CPROVER_object_whole(g_other))
-__CPROVER_ensures(__CPROVER_return_value >= __CPROVER_old(*p))   /* the others may have advanced the counter */
-__CPROVER_ensures(__CPROVER_return_value < UINT_MAX && *p == __CPROVER_return_value + 1) /* no wrap-around */
-__CPROVER_ensures(!g_solo || __CPROVER_return_value == __CPROVER_old(*p))
-__CPROVER_ensures(g_nt == __CPROVER_old(g_nt) + 1 && g_last == __CPROVER_return_value)
-__CPROVER_ensures(ALLK(FA_MINE_K))  /* the ticket is mine now */
-__CPROVER_ensures(ALLK(FA_OTHER_K)) /* the skipped tickets went to other threads, once each */
+__CPROVER_requires((IS_TICKET(p) || IS_ROUND(p) || IS_TC(p)) && v == 1)
+__CPROVER_requires(!IS_TICKET(p) || DISP_WF(*p)) /*@ dispenser_consistent_with_counter */
+__CPROVER_requires(!IS_TICKET(p) || g_nt <= UINT_MAX)
+__CPROVER_assigns(*p;
+                  IS_TICKET(p): g_nt, g_last, __CPROVER_object_whole(g_mine), __CPROVER_object_whole(g_other);
+                  !IS_TICKET(p): g_add_n, g_add_ret)
+__CPROVER_ensures(!IS_TICKET(p) || __CPROVER_return_value >= __CPROVER_old(*p))   /* the others may have advanced the counter */
+__CPROVER_ensures(!IS_TICKET(p) || (__CPROVER_return_value < UINT_MAX && *p == __CPROVER_return_value + 1)) /* no wrap-around */
+__CPROVER_ensures(!IS_TICKET(p) || !g_solo || __CPROVER_return_value == __CPROVER_old(*p))
+__CPROVER_ensures(!IS_TICKET(p) || (g_nt == __CPROVER_old(g_nt) + 1 && g_last == __CPROVER_return_value))
+__CPROVER_ensures(!IS_TICKET(p) || ALLK(FA_MINE_K))  /* the ticket is mine now */
+__CPROVER_ensures(!IS_TICKET(p) || ALLK(FA_OTHER_K)) /* the skipped tickets went to other threads, once each */
+__CPROVER_ensures(!IS_ROUND(p) || __CPROVER_return_value == __CPROVER_old(*p)) /* nobody else writes work_round */
+__CPROVER_ensures(IS_TICKET(p) || (*p == __CPROVER_return_value + 1 && g_add_n == __CPROVER_old(g_add_n) + 1 && g_add_ret == __CPROVER_return_value))
     /* clang-format on */
     ;
 #endif
@@ -279,9 +305,181 @@ __CPROVER_ensures(vf_exc == 0)
   __CPROVER_loop_invariant(vf_exc == 0 && parmap == &g_pm && round == g_ww_n && g_ws_n == g_ww_n &&                    \
                            (g_phase == 0 || g_phase == 2) && g_round_ok)
 
+/* ===== barrier pieces: the twelve methods of BusyWaitSynchro / FutexSynchro / PosixSynchro, ONE call of ONE thread.
+ * Interference: wherever the thread yields, sleeps on a futex or waits on a condition variable the other threads may
+ * change the shared counters arbitrarily (assumed callees vf_thread_yield (= std::this_thread::yield) / futex_wait, model of condition_variable::wait).
+ * Proved: what the call itself does to the counters, whom it wakes and when, and the condition under which it returns.
+ * NOT proved: the barrier property itself (needs all threads). ===== */
+#define BARRIER_SHARED                                                                                                 \
+  BWP.thread_counter, BWP.work_round, FXP.thread_counter, FXP.work_round, PXP.thread_counter, PXP.work_round
+void vf_thread_yield(void)
+    /* clang-format off */
+__CPROVER_assigns(BARRIER_SHARED)
+__CPROVER_ensures(vf_exc == 0)
+    /* clang-format on */
+    ;
+void futex_wait(unsigned int* a, unsigned int val)
+    /* clang-format off */
+__CPROVER_assigns(BARRIER_SHARED, g_fw_any, g_fw_addr)
+__CPROVER_ensures(g_fw_any && g_fw_addr == a && vf_exc == 0)
+    /* clang-format on */
+    ;
+void futex_wake(unsigned int* a, unsigned int n)
+    /* clang-format off */
+__CPROVER_assigns(g_wake_n, g_wake_addr, g_wake_cnt, g_wake_round, g_wake_tc)
+__CPROVER_ensures(g_wake_n == __CPROVER_old(g_wake_n) + 1 && g_wake_addr == a && g_wake_cnt == n)
+__CPROVER_ensures(g_wake_round == FXP.work_round && g_wake_tc == FXP.thread_counter && vf_exc == 0)
+    /* clang-format on */
+    ;
+void condition_variable__notify_all(struct condition_variable* cv)
+    /* clang-format off */
+__CPROVER_assigns(g_nall_n, g_notify_cv, g_notify_round, g_notify_tc)
+__CPROVER_ensures(g_nall_n == __CPROVER_old(g_nall_n) + 1 && g_notify_cv == cv)
+__CPROVER_ensures(g_notify_round == PXP.work_round && g_notify_tc == PXP.thread_counter && vf_exc == 0)
+    /* clang-format on */
+    ;
+void condition_variable__notify_one(struct condition_variable* cv)
+    /* clang-format off */
+__CPROVER_assigns(g_none_n, g_notify_cv)
+__CPROVER_ensures(g_none_n == __CPROVER_old(g_none_n) + 1 && g_notify_cv == cv && vf_exc == 0)
+    /* clang-format on */
+    ;
+_Bool nondet_bool(void);
+/* model of std::condition_variable::wait(lock, pred) = `while (!pred()) wait(lock);`: the other threads run (or not),
+ * and the call returns in a state where the REAL predicate (the lifted lambda of the unit) holds */
+void condition_variable__wait(struct condition_variable* cv, struct vf_lock* l, struct vf_fn pred)
+{
+  g_cvw_cv = cv;
+  if (nondet_bool())
+    vf_thread_yield();
+  _Bool ok = ((_Bool (*)(void*))pred.fn)(pred.env);
+  __CPROVER_assume(ok);
+}
+
+/* -- busy-wait -- */
+void BusyWaitSynchro__master_signal(struct BusyWaitSynchro* self)
+    /* clang-format off */
+__CPROVER_requires(self == &g_bw && vf_exc == 0)
+__CPROVER_assigns(BWP.thread_counter, BWP.work_round, g_add_n, g_add_ret)
+__CPROVER_ensures(BWP.thread_counter == 1 && BWP.work_round == __CPROVER_old(BWP.work_round) + 1) /*@ bw_master_signal_counts_itself_and_opens_the_next_round */
+__CPROVER_ensures(vf_exc == 0)
+    /* clang-format on */
+    ;
+void BusyWaitSynchro__master_wait(struct BusyWaitSynchro* self)
+    /* clang-format off */
+__CPROVER_requires(self == &g_bw && vf_exc == 0)
+__CPROVER_assigns(BARRIER_SHARED)
+__CPROVER_ensures(BWP.thread_counter >= BWP.num_workers) /*@ bw_master_wait_returns_only_when_all_workers_signalled */
+__CPROVER_ensures(vf_exc == 0)
+    /* clang-format on */
+    ;
+#define VF_LOOP_BusyWaitSynchro__master_wait_0 __CPROVER_assigns(BARRIER_SHARED) __CPROVER_loop_invariant(vf_exc == 0)
+void BusyWaitSynchro__worker_signal(struct BusyWaitSynchro* self)
+    /* clang-format off */
+__CPROVER_requires(self == &g_bw && vf_exc == 0)
+__CPROVER_assigns(BWP.thread_counter, g_add_n, g_add_ret)
+__CPROVER_ensures(g_add_n == __CPROVER_old(g_add_n) + 1 && BWP.thread_counter == g_add_ret + 1) /*@ bw_worker_signal_adds_exactly_one */
+__CPROVER_ensures(vf_exc == 0)
+    /* clang-format on */
+    ;
+void BusyWaitSynchro__worker_wait(struct BusyWaitSynchro* self, unsigned int round)
+    /* clang-format off */
+__CPROVER_requires(self == &g_bw && vf_exc == 0)
+__CPROVER_assigns(BARRIER_SHARED)
+__CPROVER_ensures(BWP.work_round == round) /*@ bw_worker_wait_returns_only_in_the_expected_round */
+__CPROVER_ensures(vf_exc == 0)
+    /* clang-format on */
+    ;
+#define VF_LOOP_BusyWaitSynchro__worker_wait_0 __CPROVER_assigns(BARRIER_SHARED) __CPROVER_loop_invariant(vf_exc == 0)
+
+/* -- futex -- */
+void FutexSynchro__master_signal(struct FutexSynchro* self)
+    /* clang-format off */
+__CPROVER_requires(self == &g_fx && vf_exc == 0)
+__CPROVER_assigns(FXP.thread_counter, FXP.work_round, g_add_n, g_add_ret, g_wake_n, g_wake_addr, g_wake_cnt, g_wake_round, g_wake_tc)
+__CPROVER_ensures(FXP.thread_counter == 1 && FXP.work_round == __CPROVER_old(FXP.work_round) + 1) /*@ fx_master_signal_counts_itself_and_opens_the_next_round */
+__CPROVER_ensures(g_wake_n == __CPROVER_old(g_wake_n) + 1 && g_wake_addr == &FXP.work_round && g_wake_cnt == INT_MAX &&
+                  g_wake_round == FXP.work_round && g_wake_tc == 1) /*@ fx_master_signal_wakes_everybody_after_the_update */
+__CPROVER_ensures(vf_exc == 0)
+    /* clang-format on */
+    ;
+void FutexSynchro__master_wait(struct FutexSynchro* self)
+    /* clang-format off */
+__CPROVER_requires(self == &g_fx && vf_exc == 0 && !g_fw_any)
+__CPROVER_assigns(BARRIER_SHARED, g_fw_any, g_fw_addr)
+__CPROVER_ensures(FXP.thread_counter >= FXP.num_workers) /*@ fx_master_wait_returns_only_when_all_workers_signalled */
+__CPROVER_ensures(!g_fw_any || g_fw_addr == &FXP.thread_counter) /*@ fx_master_wait_sleeps_on_thread_counter */
+__CPROVER_ensures(vf_exc == 0)
+    /* clang-format on */
+    ;
+#define VF_LOOP_FutexSynchro__master_wait_0                                                                            \
+  __CPROVER_assigns(count, BARRIER_SHARED, g_fw_any, g_fw_addr)                                                        \
+  __CPROVER_loop_invariant(vf_exc == 0 && count == FXP.thread_counter && (!g_fw_any || g_fw_addr == &FXP.thread_counter))
+void FutexSynchro__worker_signal(struct FutexSynchro* self)
+    /* clang-format off */
+__CPROVER_requires(self == &g_fx && vf_exc == 0)
+__CPROVER_assigns(FXP.thread_counter, g_add_n, g_add_ret, g_wake_n, g_wake_addr, g_wake_cnt, g_wake_round, g_wake_tc)
+__CPROVER_ensures(g_add_n == __CPROVER_old(g_add_n) + 1 && FXP.thread_counter == g_add_ret + 1) /*@ fx_worker_signal_adds_exactly_one */
+__CPROVER_ensures(g_wake_n == __CPROVER_old(g_wake_n) + (g_add_ret + 1 == FXP.num_workers ? 1 : 0)) /*@ fx_exactly_the_last_worker_wakes_the_master */
+__CPROVER_ensures(g_wake_n == __CPROVER_old(g_wake_n) || (g_wake_addr == &FXP.thread_counter && g_wake_cnt >= 1)) /*@ fx_worker_signal_wakes_on_thread_counter */
+__CPROVER_ensures(vf_exc == 0)
+    /* clang-format on */
+    ;
+void FutexSynchro__worker_wait(struct FutexSynchro* self, unsigned int expected_round)
+    /* clang-format off */
+__CPROVER_requires(self == &g_fx && vf_exc == 0 && !g_fw_any)
+__CPROVER_assigns(BARRIER_SHARED, g_fw_any, g_fw_addr)
+__CPROVER_ensures(FXP.work_round == expected_round) /*@ fx_worker_wait_returns_only_in_the_expected_round */
+__CPROVER_ensures(!g_fw_any || g_fw_addr == &FXP.work_round) /*@ fx_worker_wait_sleeps_on_work_round */
+__CPROVER_ensures(vf_exc == 0)
+    /* clang-format on */
+    ;
+#define VF_LOOP_FutexSynchro__worker_wait_0                                                                            \
+  __CPROVER_assigns(round, BARRIER_SHARED, g_fw_any, g_fw_addr)                                                        \
+  __CPROVER_loop_invariant(vf_exc == 0 && round == FXP.work_round && (!g_fw_any || g_fw_addr == &FXP.work_round))
+
+/* -- posix -- */
+void PosixSynchro__master_signal(struct PosixSynchro* self)
+    /* clang-format off */
+__CPROVER_requires(self == &g_px && vf_exc == 0)
+__CPROVER_assigns(PXP.thread_counter, PXP.work_round, g_nall_n, g_notify_cv, g_notify_round, g_notify_tc)
+__CPROVER_ensures(PXP.thread_counter == 1 && PXP.work_round == __CPROVER_old(PXP.work_round) + 1) /*@ px_master_signal_counts_itself_and_opens_the_next_round */
+__CPROVER_ensures(g_nall_n == __CPROVER_old(g_nall_n) + 1 && g_notify_cv == &g_px.ready_cond && g_notify_round == PXP.work_round &&
+                  g_notify_tc == 1) /*@ px_master_signal_notifies_all_on_ready_cond_after_the_update */
+__CPROVER_ensures(vf_exc == 0)
+    /* clang-format on */
+    ;
+void PosixSynchro__master_wait(struct PosixSynchro* self)
+    /* clang-format off */
+__CPROVER_requires(self == &g_px && vf_exc == 0)
+__CPROVER_assigns(BARRIER_SHARED, g_cvw_cv)
+__CPROVER_ensures(PXP.thread_counter >= PXP.num_workers) /*@ px_master_wait_returns_only_when_all_workers_signalled */
+__CPROVER_ensures(g_cvw_cv == &g_px.done_cond) /*@ px_master_wait_waits_on_done_cond */
+__CPROVER_ensures(vf_exc == 0)
+    /* clang-format on */
+    ;
+void PosixSynchro__worker_signal(struct PosixSynchro* self)
+    /* clang-format off */
+__CPROVER_requires(self == &g_px && vf_exc == 0)
+__CPROVER_assigns(PXP.thread_counter, g_none_n, g_notify_cv)
+__CPROVER_ensures(PXP.thread_counter == __CPROVER_old(PXP.thread_counter) + 1) /*@ px_worker_signal_adds_exactly_one */
+__CPROVER_ensures(g_none_n == __CPROVER_old(g_none_n) + (PXP.thread_counter == PXP.num_workers ? 1 : 0)) /*@ px_exactly_the_last_worker_notifies_the_master */
+__CPROVER_ensures(g_none_n == __CPROVER_old(g_none_n) || g_notify_cv == &g_px.done_cond) /*@ px_worker_signal_notifies_done_cond */
+__CPROVER_ensures(vf_exc == 0)
+    /* clang-format on */
+    ;
+void PosixSynchro__worker_wait(struct PosixSynchro* self, unsigned int expected_round)
+    /* clang-format off */
+__CPROVER_requires(self == &g_px && vf_exc == 0)
+__CPROVER_assigns(BARRIER_SHARED, g_cvw_cv)
+__CPROVER_ensures(PXP.work_round == expected_round) /*@ px_worker_wait_returns_only_in_the_expected_round */
+__CPROVER_ensures(g_cvw_cv == &g_px.ready_cond) /*@ px_worker_wait_waits_on_ready_cond */
+__CPROVER_ensures(vf_exc == 0)
+    /* clang-format on */
+    ;
+
 #include "gen.c"
 
-_Bool nondet_bool(void);
 unsigned int nondet_uint(void);
 size_t nondet_size(void);
 
@@ -377,6 +575,90 @@ void harness(void)
     g_pm.worker_fun.env = 0;
   }
   Parmap__apply(&g_pm, &g_fun, &g_data);
+  VF_CANARY_POINT;
+}
+#endif
+#ifdef H_bw_master_signal
+void harness(void)
+{
+  BusyWaitSynchro__master_signal(&g_bw);
+  VF_CANARY_POINT;
+}
+#endif
+#ifdef H_bw_master_wait
+void harness(void)
+{
+  BusyWaitSynchro__master_wait(&g_bw);
+  VF_CANARY_POINT;
+}
+#endif
+#ifdef H_bw_worker_signal
+void harness(void)
+{
+  BusyWaitSynchro__worker_signal(&g_bw);
+  VF_CANARY_POINT;
+}
+#endif
+#ifdef H_bw_worker_wait
+void harness(void)
+{
+  BusyWaitSynchro__worker_wait(&g_bw, nondet_uint());
+  VF_CANARY_POINT;
+}
+#endif
+#ifdef H_fx_master_signal
+void harness(void)
+{
+  FutexSynchro__master_signal(&g_fx);
+  VF_CANARY_POINT;
+}
+#endif
+#ifdef H_fx_master_wait
+void harness(void)
+{
+  FutexSynchro__master_wait(&g_fx);
+  VF_CANARY_POINT;
+}
+#endif
+#ifdef H_fx_worker_signal
+void harness(void)
+{
+  FutexSynchro__worker_signal(&g_fx);
+  VF_CANARY_POINT;
+}
+#endif
+#ifdef H_fx_worker_wait
+void harness(void)
+{
+  FutexSynchro__worker_wait(&g_fx, nondet_uint());
+  VF_CANARY_POINT;
+}
+#endif
+#ifdef H_px_master_signal
+void harness(void)
+{
+  PosixSynchro__master_signal(&g_px);
+  VF_CANARY_POINT;
+}
+#endif
+#ifdef H_px_master_wait
+void harness(void)
+{
+  PosixSynchro__master_wait(&g_px);
+  VF_CANARY_POINT;
+}
+#endif
+#ifdef H_px_worker_signal
+void harness(void)
+{
+  PosixSynchro__worker_signal(&g_px);
+  VF_CANARY_POINT;
+}
+#endif
+#ifdef H_px_worker_wait
+void harness(void)
+{
+  PosixSynchro__worker_wait(&g_px, nondet_uint());
   VF_CANARY_POINT;
 }
 #endif
